@@ -1,5 +1,6 @@
 import Gmx.Model.SwapGraph
 import Gmx.Lemmas.SwapGraph
+import Gmx.Lemmas.SwapGraph2
 /-!
 # C42 — swap path search returns valid, bounded and best paths
 
@@ -11,6 +12,11 @@ of the in-place Bellman–Ford (`bf_dist_le_best_k`); that the distances `best_s
 in Bellman–Ford mode are no worse than ANY path within the step limit
 (`bf_reported_le_path_within_limit`); and that a successful run certifies the absence of
 reachable negative cycles (`negative_cycle_detected_partial`).
+
+Round 2 adds, for Bellman–Ford mode: the source keeps distance 0 (`bf_source_distance_zero`) and
+every recommended path is a walk FROM THE SOURCE whose cost equals the reported distance
+(`bf_path_cost_eq_reported`), via rootedness / tightness of the returned (distances, frozen
+predecessors) pair and achievability of every distance.
 
 What is FALSE of the code (witnesses below, replayed on the real code through the hook): the
 RECOMMENDATION can be missing or worse although the reported distance bound holds —
@@ -157,6 +163,90 @@ theorem negative_cycle_detected_partial (g : Graph) (hwf : ∀ e ∈ g.edges, e.
   rw [hclosed, hreach] at hy
   cases hy
   omega
+
+/-- the distances Bellman–Ford returns are `k` in-place rounds from the start, for some `k`. -/
+theorem bf_result_is_rounds (g : Graph) (src : Nat) (r : Dist × Pred) (h : bellmanFord g src = .ok r) :
+    ∃ k, r.1 = iterD g k (initDist src) := by
+  obtain ⟨_, _, hr, _⟩ := bellmanFord_ok h
+  rw [hr]
+  cases hc : (bfFinal g src).2.2 with
+  | some c => exact ⟨g.maxSteps, by simp [bf_cache_is_round_max_steps g src c hc]⟩
+  | none =>
+    obtain ⟨⟨k, hk⟩, _⟩ := bfLoop_spec g (g.n - 1) 1 (initDist src) initPred none
+    exact ⟨k, hk⟩
+
+/-- When Bellman–Ford succeeds the source keeps distance exactly 0 (a smaller value would be the
+cost of a closed walk through the source, i.e. a negative cycle). -/
+theorem bf_source_distance_zero (g : Graph) (hwf : ∀ e ∈ g.edges, e.src < g.n) (src : Nat)
+    (r : Dist × Pred) (h : bellmanFord g src = .ok r) : r.1 src = some 0 := by
+  obtain ⟨k, hk⟩ := bf_result_is_rounds g src r h
+  obtain ⟨y, hy, hle⟩ := iterD_better g k (initDist src) src 0 (by simp [initDist])
+  obtain ⟨es, h1, h2, h3⟩ := iterD_achieved g src k _ (initDist_achieved g src) src y hy
+  obtain ⟨⟨k', hk'⟩, _⟩ := bfLoop_spec g (g.n - 1) 1 (initDist src) initPred none
+  obtain ⟨da, hda, _⟩ := iterD_better g k' (initDist src) src 0 (by simp [initDist])
+  have hfin : (bfFinal g src).1 src = some da := by
+    have : (bfFinal g src).1 = iterD g k' (initDist src) := hk'
+    rw [this]; exact hda
+  have := negative_cycle_detected_partial g hwf src r h src da hfin es h1 h2
+  rw [hk, hy]
+  congr 1
+  omega
+
+/-- Validity and rate in Bellman–Ford mode (no arbitrage): every recommended path is the market
+list of a walk of estimated edges that STARTS AT THE SOURCE, ends at the target, has at most
+`max_steps` edges, and whose cost EQUALS the reported distance (so the reported rate
+`exp(−distance)` is the rate of the recommended path). -/
+theorem bf_path_cost_eq_reported (g : Graph) (hwf : ∀ e ∈ g.edges, e.src < g.n) (src tgt : Nat)
+    (r : Dist × Pred) (h : bellmanFord g src = .ok r)
+    (hne : (toPath g src tgt r.1 r.2).2 ≠ []) :
+    ∃ es : List Edge, isWalk g src es = true ∧ walkEnd src es = tgt ∧
+      es.map (·.market) = (toPath g src tgt r.1 r.2).2 ∧ es.length ≤ g.maxSteps ∧
+      (toPath g src tgt r.1 r.2).1 = some (walkCost es) := by
+  obtain ⟨_, _, hr1, hr2⟩ := bellmanFord_ok h
+  obtain ⟨hJ, hT⟩ := bfFinal_tight g src
+  rw [← hr1, ← hr2] at hT
+  rw [← hr2] at hJ
+  have hb := to_path_bounded g src tgt r.1 r.2
+  have h0 := bf_source_distance_zero g hwf src r h
+  unfold toPath at hne hb ⊢
+  by_cases h1 : tgt ≥ g.n
+  · simp [h1] at hne
+  · by_cases h2 : src = tgt
+    · simp [h1, h2] at hne
+    · simp only [h1, h2, if_false] at hne hb ⊢
+      cases hw : walk r.2 g.maxSteps (g.maxSteps + 2) (r.2 tgt) 0 [] with
+      | none => simp [hw] at hne
+      | some path =>
+        simp only [hw] at hne hb ⊢
+        by_cases h3 : path.isEmpty
+        · simp [h3] at hne
+        · have hb' : path.length ≤ g.maxSteps := by simpa [h3] using hb
+          simp only [h3]
+          obtain ⟨x, es, hm, hwk, hend, hx, hcost⟩ :=
+            walk_chain_cost g src r.1 r.2 hJ hT g.maxSteps tgt _ tgt 0 [] path [] rfl rfl rfl
+              (Or.inl rfl) (fun hh => absurd rfl hh) hw
+          have hes : es ≠ [] := by
+            intro he; subst he
+            simp at hm
+            subst hm; simp at h3
+          have hxs : x = src := by
+            rcases hx with hx | hx
+            · exact absurd hx hes
+            · exact hx
+          subst hxs
+          obtain ⟨dx, dt, hdx, hdt, hle⟩ := hcost hes
+          rw [h0] at hdx; cases hdx
+          have hlen : es.length ≤ g.maxSteps := by
+            have : es.length = path.length := by rw [← hm]; simp
+            rw [this]; exact hb'
+          obtain ⟨d', hd', hle'⟩ := bf_reported_le_path_within_limit g hwf x r h es hwk hlen
+          rw [hend, hdt] at hd'
+          cases hd'
+          refine ⟨es, hwk, hend, hm, hlen, ?_⟩
+          show r.1 tgt = _
+          rw [hdt]
+          congr 1
+          omega
 
 /-- `arbitrage_exists` is `Some(false)` exactly when Bellman–Ford succeeded, `Some(true)` exactly
 when it reported a negative cycle, `None` when it was skipped. -/
